@@ -31,11 +31,11 @@ Record rstate := { st_stream : stream; st_linenum : Z; st_fnl : option bytes }.
 
 Definition sys_maxsize : Z := 9223372036854775807%Z.
 
-Definition pv_truthy (v : option pv) : bool :=
+(* `if line_endings is not None` (an option that is present, whatever its value) *)
+Definition pv_given (v : option pv) : bool :=
   match v with
   | None => false
-  | Some (VInt z) => negb (Z.eqb z 0)
-  | Some (VStr s) => nonempty s
+  | Some _ => true
   end.
 
 (* re.sub(br'^ {1,k}', b'', line): drop up to k leading spaces (at least one if present) *)
@@ -76,7 +76,7 @@ Definition read_content (st : rstate) (length_z : Z) (encoding indent line_endin
                       end in
     if indent_bad then CParse (ln - 1)%Z else
     let nl_res : res bytes :=
-      if pv_truthy line_endings then
+      if pv_given line_endings then
         match line_endings with
         | Some (VStr le) => get_newline_for_type le enc
         | _ => Err EValue          (* NEWLINE_FORMATS[<int>] -> KeyError -> ValueError *)
